@@ -41,10 +41,10 @@ Proof.
 Qed.
 
 (** the partial copy after an unrelated failed call *)
-Lemma Partial_frame_nil g gc g2 n d tcs : Partial g gc n d tcs -> Frame [] [] gc g2 -> Partial g g2 n d tcs.
+Lemma Partial_frame_nil g gc g2 n d tcs : Partial g gc n d tcs -> Ext [] [] gc g2 -> Partial g g2 n d tcs.
 Proof.
   intros P Fr. pose proof (pt_mono_frame _ _ _ _ Fr) as Hm. constructor.
-  - pose proof (Frame_trans _ _ _ _ _ _ _ (pa_frame _ _ _ _ _ P) Fr) as H. by rewrite !app_nil_r in H.
+  - pose proof (Ext_trans _ _ _ _ _ _ _ (pa_frame _ _ _ _ _ P) Fr) as H. by rewrite !app_nil_r in H.
   - apply P.
   - apply Hm, P.
   - apply Hm, P.
@@ -64,24 +64,24 @@ Qed.
 Section Link.
   Context (g gc g2 : heap) (n : positive) (d : rdata) (tcs : list tree) (tc : tree).
   Hypothesis P : Partial g gc n d tcs.
-  Hypothesis Fr2 : Frame (nids (flat_t tc)) (sids (flat_t tc)) gc g2.
+  Hypothesis Fr2 : Ext (nids (flat_t tc)) (sids (flat_t tc)) gc g2.
   Hypothesis ND2 : NoDup (nids (flat_t tc) ++ sids (flat_t tc)).
   Hypothesis C2 : Chain_ok g2 [tc] None.
   Hypothesis R2 : Forall ref_ok (flat_t tc).
 
   Local Lemma Hold x : x ∈ (n :: nids (flat tcs)) ++ owned_strs d ++ sids (flat tcs) -> (x < h_next gc)%positive.
-  Proof. intros Hx. by destruct (fr_new _ _ _ _ (pa_frame _ _ _ _ _ P) x Hx) as (_ & ? & _). Qed.
+  Proof. intros Hx. by destruct (xt_new _ _ _ _ (pa_frame _ _ _ _ _ P) x Hx) as (_ & ? & _). Qed.
   Local Lemma Hnew x : x ∈ nids (flat_t tc) ++ sids (flat_t tc) -> (h_next gc <= x)%positive.
-  Proof. intros Hx. by destruct (fr_new _ _ _ _ Fr2 x Hx) as (? & _). Qed.
+  Proof. intros Hx. by destruct (xt_new _ _ _ _ Fr2 x Hx) as (? & _). Qed.
   Local Lemma Hold_id x : x ∈ n :: ids tcs -> (x < h_next gc)%positive.
   Proof. intros Hx. apply Hold. apply elem_of_app. left. by rewrite nids_flat. Qed.
   Local Lemma Hnew_id x : x ∈ ids_t tc -> (h_next gc <= x)%positive.
   Proof. intros Hx. apply Hnew. apply elem_of_app. left. by rewrite nids_flat_t. Qed.
 
   Local Lemma snoc_frame :
-    Frame (n :: nids (flat (tcs ++ [tc]))) (owned_strs d ++ sids (flat (tcs ++ [tc]))) g g2.
+    Ext (n :: nids (flat (tcs ++ [tc]))) (owned_strs d ++ sids (flat (tcs ++ [tc]))) g g2.
   Proof.
-    pose proof (Frame_trans _ _ _ _ _ _ _ (pa_frame _ _ _ _ _ P) Fr2) as H.
+    pose proof (Ext_trans _ _ _ _ _ _ _ (pa_frame _ _ _ _ _ P) Fr2) as H.
     rewrite flat_snoc, nids_app, sids_app. by rewrite app_assoc.
   Qed.
   Local Lemma snoc_nodup :
@@ -135,7 +135,7 @@ Section Link.
       + assert (Hmono : forall c e, c <> l -> c <> c' -> lk_at g2 c e -> lk_at g4 c e).
         { intros c e H1 H2 H. apply lk_at_set_lnk_ne; [|done]. by apply lk_at_set_lnk_ne. }
         constructor.
-        * apply Frame_st_lnk; [apply Frame_st_lnk; [apply snoc_frame|]|].
+        * apply Ext_st_lnk; [apply Ext_st_lnk; [apply snoc_frame|]|].
           -- right. rewrite nids_flat. rewrite ids_app. apply elem_of_app. by left.
           -- right. rewrite flat_snoc, nids_app. apply elem_of_app. right. rewrite nids_flat_t. apply elem_of_ids_t_self.
         * apply snoc_nodup.
@@ -176,7 +176,7 @@ Section Link.
              ++ by apply lk_at_set_lnk_eq with (e := (None, None)).
         * apply P.
         * apply snoc_ref.
-      + intros b s H. by apply str_at_set_lnk, str_at_set_lnk.
+      + intros b s H. by apply str_is_set_lnk, str_is_set_lnk.
       + reflexivity.
     - (* first child *)
       assert (E : tcs = []).
@@ -187,7 +187,7 @@ Section Link.
       + intros K. cbn [is_null negb].
         rewrite (bindM_Ret _ _ _ _ _ (run_set_child_plain _ _ _ (Some c') Hn2)). reflexivity.
       + constructor.
-        * apply Frame_st_dat; [apply snoc_frame|by left].
+        * apply Ext_st_dat; [apply snoc_frame|by left].
         * apply snoc_nodup.
         * rewrite E. apply nd_at_set_dat_eq; [apply Hn2|by rewrite lookup_insert].
         * by apply lk_at_set_dat.
@@ -196,7 +196,7 @@ Section Link.
           pose proof (Hold_id n ltac:(by left)). pose proof (Hnew_id n Hin). lia.
         * apply P.
         * apply snoc_ref.
-      + intros b s H. by apply str_at_set_dat.
+      + intros b s H. by apply str_is_set_dat.
       + reflexivity.
   Qed.
 End Link.
@@ -218,7 +218,7 @@ Lemma close_sim g g1 n d tcs :
     (nc <~ get_child (Some n) ;;
      when (negb (is_null nc)) (nc2 <~ get_child (Some n) ;; set_prev nc2 (last (tid <$> tcs))) ;;;
      ret (Some n)) g1 = Ret (Some n, g2) /\
-    Frame (nids (flat_t (T n d tcs))) (sids (flat_t (T n d tcs))) g g2 /\
+    Ext (nids (flat_t (T n d tcs))) (sids (flat_t (T n d tcs))) g g2 /\
     Chain_ok g2 [T n d tcs] None /\ str_mono g1 g2 /\ h_req g2 = h_req g1.
 Proof.
   intros P. pose proof (pa_node _ _ _ _ _ P) as Hn. pose proof (pa_chain _ _ _ _ _ P) as [C1 C2 C3].
@@ -245,7 +245,7 @@ Proof.
     assert (Hc0n : c0 <> n).
     { intros E. apply Hn_notin. rewrite <- E. apply (roots_subseteq_ids (t0 :: tr)). by left. }
     exists g2. split; [reflexivity|]. split; [|split; [|split; [|done]]].
-    + rewrite flat_t_unfold. apply Frame_st_lnk; [apply P|]. right. rewrite nids_flat.
+    + rewrite flat_t_unfold. apply Ext_st_lnk; [apply P|]. right. rewrite nids_flat.
       apply (roots_subseteq_ids (t0 :: tr)). by left.
     + assert (Htop : top_ok g2 (last (c0 :: R)) (c0 :: R)).
       { apply (top_ok_close g1); [by split|done| |].
@@ -261,7 +261,7 @@ Proof.
         -- apply lk_at_set_lnk_ne; [by eapply C2|]. intros ->.
            apply (child_not_root (t0 :: tr) i d' ks c0); [done|done|by eapply elem_of_list_lookup_2|by left].
       * cbn. split; [|done]. apply lk_at_set_lnk_ne; [apply P|done].
-    + intros b s H. by apply str_at_set_lnk.
+    + intros b s H. by apply str_is_set_lnk.
 Qed.
 
 (** * the result of duplicating one tree *)
@@ -293,10 +293,10 @@ Section Loop.
   Notation oclean := (oclean oracle).
 
   Definition Done g t tc g' : Prop :=
-    Frame (nids (flat_t tc)) (sids (flat_t tc)) g g' /\ NoDup (nids (flat_t tc) ++ sids (flat_t tc)) /\
+    Ext (nids (flat_t tc)) (sids (flat_t tc)) g g' /\ NoDup (nids (flat_t tc) ++ sids (flat_t tc)) /\
     Chain_ok g' [tc] None /\ Forall ref_ok (flat_t tc) /\ copy_of g' t tc /\ complete t /\ oclean g g'.
   Definition Post g t (r : ptr) g' : Prop :=
-    (r = None /\ Frame [] [] g g' /\ (complete t -> ofail g g')) \/
+    (r = None /\ Ext [] [] g g' /\ (complete t -> ofail g g')) \/
     (exists tc, r = Some (tid tc) /\ Done g t tc g').
   Definition RecOK (rec : ptr -> M ptr) (lf k : nat) : Prop :=
     forall c g1, Closed g1 -> src_t g1 lf k c ->
@@ -323,10 +323,10 @@ Section Loop.
       rewrite src_list_cons in Hsrc. destruct Hsrc as ((pv & Hlk) & Hc & Hr).
       pose proof (pa_frame _ _ _ _ _ P) as Frg. pose proof (pt_mono_frame _ _ _ _ Frg) as Hm.
       pose proof (src_t_mono _ _ _ _ _ Hm Hc) as Hc'.
-      destruct (Hrec c gc (fr_closed _ _ _ _ Frg) Hc') as (r0 & g2 & Hrun & [(-> & Fr0 & Hof)|(tc & -> & HD)]).
+      destruct (Hrec c gc (xt_closed _ _ _ _ Frg) Hc') as (r0 & g2 & Hrun & [(-> & Fr0 & Hof)|(tc & -> & HD)]).
       + rewrite (bindM_Ret _ _ _ _ _ Hrun). cbn [is_null].
         exists false, None, g2. split; [reflexivity|]. exists []. rewrite app_nil_r.
-        split; [by eapply Partial_frame_nil|]. split; [intros b s H; by eapply str_at_frame|].
+        split; [by eapply Partial_frame_nil|]. split; [intros b s H; by eapply str_is_frame|].
         right. split; [done|]. intros HF. apply Forall_cons in HF as [HF _].
         eapply ofail_weaken; [apply Frg|by apply Hof].
       + destruct HD as (Fr2 & ND2 & C2 & R2 & Hcp & Hcomp & Hcl2).
@@ -344,7 +344,7 @@ Section Loop.
         exists ok, nc, g'. split; [exact Hrun'|]. exists (tc :: tcs2).
         rewrite <- app_assoc in P', Hcase. cbn [app] in P', Hcase.
         assert (Hs2 : str_mono g2 g') by (intros b s H; by apply Hs', Hs3).
-        split; [done|]. split; [intros b s H; apply Hs2; by eapply str_at_frame|].
+        split; [done|]. split; [intros b s H; apply Hs2; by eapply str_is_frame|].
         destruct Hcase as [(-> & Hnc & Hcpl & Hcl' & HF)|(-> & Hof)].
         * left. split_and!; try done.
           -- rewrite copy_list_cons. split; [by eapply copy_of_mono|done].
@@ -359,7 +359,7 @@ Section Loop.
        (newitem <~ cJSON_New_Item oracle ;;
         if is_null newitem then dup_fail newitem else
         dup_k0 (dup_k1 oracle (dup_k2 oracle (K newitem) (Some i) newitem) (Some i) newitem) (Some i) newitem) g
-       = Ret (None, g') /\ Frame [] [] g g' /\ ofail g g') \/
+       = Ret (None, g') /\ Ext [] [] g g' /\ ofail g g') \/
     (exists v kk gc,
        (newitem <~ cJSON_New_Item oracle ;;
         if is_null newitem then dup_fail newitem else
@@ -369,7 +369,7 @@ Section Loop.
   Proof.
     intros C Hsrc. destruct (oracle (h_req g)) eqn:Ho.
     - left. exists (bump g). rewrite (bindM_Ret _ _ _ _ _ (run_New_Item_fail oracle _ Ho)).
-      split; [reflexivity|]. split; [by apply Frame_bump|]. exists (h_req g). split; [cbn; lia|done].
+      split; [reflexivity|]. split; [by apply Ext_bump|]. exists (h_req g). split; [cbn; lia|done].
     - rewrite (bindM_Ret _ _ _ _ _ (run_New_Item_ok oracle _ Ho)). cbn [is_null].
       set (n := h_next g). pose proof (Partial_alloc g C) as P0. fold n in P0.
       assert (Hcl0 : oclean g (alloc_node_h g)).
